@@ -50,11 +50,20 @@ def loadJSON (clockId : Bytes) (logSort : SortKind) (id : Bytes) (fetched : List
 def entryDifference (a b : List Entry) : List Entry :=
   (b.foldl (fun (acc : List Entry) v => if has a v.hash || has acc v.hash then acc else acc ++ [v]) [])
 
+/-- `entryLastNKeeping`: `n` of the sorted entries — every entry of `keep` plus the newest others -/
+def lastNKeeping (n : Int) (l : List Entry) (keep : List Entry) : List Entry :=
+  if n ≥ l.length then l else
+  let keptH := dedupHashes (keep.map (·.hash)) []
+  let quota : Int := n - keptH.length
+  ((l.reverse.foldl (fun (acc : List Entry × Int) e =>
+      if keptH.contains e.hash then (acc.1 ++ [e], acc.2)
+      else if acc.2 > 0 then (acc.1 ++ [e], acc.2 - 1) else acc) ([], quota)).1).reverse
+
 /-- `fromEntry` + `NewFromEntry`; `length = max n |source|` -/
 def loadEntries (clockId : Bytes) (logSort : SortKind) (source fetched : List Entry) (n : Int) : Option Log :=
   let len : Int := if n > -1 then max n source.length else -1
   let uniques := goSort clockAsc (omFromList (source ++ fetched))
-  let sliced := if len > -1 then lastN len uniques else uniques
+  let sliced := if len > -1 then lastNKeeping len uniques source else uniques
   let missing := entryDifference sliced source
   let result := missing ++ sliced.drop missing.length
   match result.getLast? with
